@@ -81,13 +81,15 @@ func (d *DAGMutex[T]) Lock(id T) {
 // entity within DAGMutex and then arrange for another goroutine to RUnlock (Unlock) it.
 func (d *DAGMutex[T]) Unlock(id T) {
 	d.Mutex.Lock()
-	mutex := d.unregisterMutex(id)
-	if mutex == nil {
-		d.Mutex.Unlock()
+	mutex, err := d.unregisterMutex(id)
+	d.Mutex.Unlock()
 
+	if err != nil {
+		panic(err)
+	}
+	if mutex == nil {
 		return
 	}
-	d.Mutex.Unlock()
 
 	mutex.Unlock()
 }
@@ -122,7 +124,11 @@ func (d *DAGMutex[T]) unregisterMutexes(ids ...T) (mutexes []*StarvingMutex) {
 
 	mutexes = make([]*StarvingMutex, 0)
 	for _, id := range ids {
-		if mutex := d.unregisterMutex(id); mutex != nil {
+		mutex, err := d.unregisterMutex(id)
+		if err != nil {
+			panic(err)
+		}
+		if mutex != nil {
 			mutexes = append(mutexes, mutex)
 		}
 	}
@@ -130,20 +136,20 @@ func (d *DAGMutex[T]) unregisterMutexes(ids ...T) (mutexes []*StarvingMutex) {
 	return mutexes
 }
 
-func (d *DAGMutex[T]) unregisterMutex(id T) (mutex *StarvingMutex) {
+func (d *DAGMutex[T]) unregisterMutex(id T) (mutex *StarvingMutex, err error) {
 	if count, _ := d.consumerCounter.Get(id); count == 1 {
 		d.consumerCounter.Delete(id)
 		d.mutexes.Delete(id)
 
-		return nil
+		return nil, nil
 	}
 
 	mutex, mutexExists := d.mutexes.Get(id)
 	if !mutexExists {
-		panic(ierrors.Errorf("called Unlock or RUnlock too often for entity with %v", id))
+		return nil, ierrors.Errorf("called Unlock or RUnlock too often for entity with %v", id)
 	}
 	count, _ := d.consumerCounter.Get(id)
 	d.consumerCounter.Set(id, count-1)
 
-	return mutex
+	return mutex, nil
 }
